@@ -46,6 +46,10 @@ def impl_main():
             return self.real.closed
 
     def spy_open(path, mode="r", *a, **k):
+        if state.get("open_fails"):
+            state["open_fails"] = False
+            state["open_failed"] = True
+            raise PermissionError("injected open failure (the new node is not usable yet)")
         f = FileProxy(builtins.open(path, mode, *a, **k))
         handles.append(f)
         return f
@@ -67,6 +71,7 @@ def impl_main():
                 builtins.open(p, "wb").close()
             del handles[:]
             state["close_fails"] = False
+            state["open_fails"] = False
             inode_ids = {}
 
             def canon(ino):
@@ -82,8 +87,11 @@ def impl_main():
             inos = []
             for ev in case["events"]:
                 o = ["nothing"]
+                state["open_failed"] = False
                 try:
-                    if ev == "execute":
+                    if ev == "openfail_on":
+                        state["open_fails"] = True
+                    elif ev == "execute":
                         del sgio.LOG[:]
                         try:
                             node = os.stat(p).st_ino
@@ -125,7 +133,7 @@ def impl_main():
                     elif ev == "exit":
                         dev.__exit__(None, None, None)
                 except OSError:
-                    o = ["raised", "OSError"]
+                    o = ["raised", "OSError"] + (["openfail"] if state.get("open_failed") else [])
                 except Exception as e:  # noqa
                     o = ["raised", type(e).__name__]
                 res.append(o)
@@ -174,6 +182,15 @@ def gen_cases(seed, tier):
     for al in ("keep", "remove"):
         for rw in (False, True):
             cases.append(dict(detect=True, rw=rw, alias=al, events=["execute", "replug", "execute", "replug", "execute"]))
+    # a re-open that fails (the new node is not usable yet): the failure is reported, and the next command does not go through the old handle.
+    # These histories are judged by the oracle on the implementation only (the event is not in the alphabet of Model/Device.v)
+    for rw in (False, True):
+        cases.append(dict(detect=True, rw=rw, events=["execute", "replug", "openfail_on", "execute", "execute", "execute"]))
+        cases.append(dict(detect=True, rw=rw, events=["replug", "openfail_on", "execute", "replug", "execute"]))
+    for _ in range(60 if tier == "quick" else 1500):
+        n = rng.randint(3, 20)
+        cases.append(dict(detect=True, rw=rng.random() < 0.5,
+                          events=rng.choices(EVENTS + ["openfail_on"], weights=[5, 4, 1, 1, 1, 1, 1, 3], k=n)))
     return cases
 
 
@@ -189,6 +206,8 @@ def oracle(case, r):
             node = None
         elif ev == "execute":
             if case["detect"]:
+                if o[0] == "raised" and len(o) > 2 and o[2] == "openfail":
+                    continue          # the re-open failed and the failure was reported: nothing was sent; the NEXT command is judged as usual
                 if node is None:
                     if o[0] != "raised" or o[1] != "OSError":
                         return "event %d: the node had vanished but execute gave %s" % (i, o)
@@ -250,6 +269,9 @@ def run(rep, tier, seed):
     with vlib.Lock():
         ok, log, _ = vlib.coq_make(["Model/Device.vo", "Gen/Misc.vo"])
     shards, SH = [], 500
+    all_cases, all_results = cases, results
+    keep = [i for i, c in enumerate(all_cases) if "openfail_on" not in c["events"]]
+    cases, results = [all_cases[i] for i in keep], [all_results[i] for i in keep]
     for s in range(0, len(cases), SH):
         body = ";\n  ".join(coq_case(c, r) for c, r in zip(cases[s:s + SH], results[s:s + SH]))
         shards.append(("cases_device_%d" % (s // SH), HEADER + "Definition cases := [\n  %s].\nEval vm_compute in (mismatches check cases).\n" % body))
@@ -271,7 +293,7 @@ def run(rep, tier, seed):
     rep.suite("SCSIDevice on a real file system (/dev/shm): event sequences (all of length <= 4 sampled, random up to 40) vs Model/Device.v",
               len(cases), len(bad), distinct=len({json.dumps(c) for c in cases}),
               samples=[dict(case=cases[-1], impl=results[-1]["outs"][:6])], distribution=dict(event_outcomes=dist))
-    return bad, cases, results
+    return bad, all_cases, all_results
 
 
 if __name__ == "__main__":
